@@ -89,7 +89,14 @@ int cif_packet_create(cif_packet_tp **packet, UChar *names[]) {
                     entry->key_orig = cif_u_strdup(*next);
 
                     if (entry->key_orig == NULL) {
+                        /*
+                         * Hand all the normalized names over to the packet, so that each is released exactly once,
+                         * together with the packet and the original names already copied
+                         */
+                        entry->key_orig = entry->key;
+                        (*packet)->map.is_standalone = 1;
                         cif_packet_free(*packet);
+                        counter = 0;
                         FAIL(soft, CIF_MEMORY_ERROR);
                     }
                 }
@@ -121,6 +128,22 @@ int cif_packet_create(cif_packet_tp **packet, UChar *names[]) {
  * this function is hard to use because it does not record the original item
  * names; instead, it just sets them to the (provided) normalized names.
  */
+/*
+ * All uthash fatal errors arise from memory allocation failure.  When the table itself cannot be created, uthash
+ * leaves the entry being added as the head of a table that does not exist; that must be undone before the packet
+ * is released.  (In all other cases the entry has already been added to a consistent table.)
+ */
+#undef uthash_fatal
+#define uthash_fatal(msg) do { \
+    if (temp_packet->map.head == scalar) { \
+        free(scalar->hh.tbl); \
+        temp_packet->map.head = NULL; \
+        if (avoid_aliasing != 0) free(scalar->key); \
+        free(scalar); \
+    } \
+    FAIL(soft, CIF_MEMORY_ERROR); \
+} while (0)
+
 int cif_packet_create_norm(cif_packet_tp **packet, UChar **names, int avoid_aliasing) {
     FAILURE_HANDLING;
     cif_packet_tp *temp_packet;
@@ -148,7 +171,10 @@ int cif_packet_create_norm(cif_packet_tp **packet, UChar **names, int avoid_alia
                     scalar->key = *name;
                 } else {
                     scalar->key = cif_u_strdup(*name);
-                    if (scalar->key == NULL) FAIL(soft, CIF_MEMORY_ERROR);
+                    if (scalar->key == NULL) {
+                        free(scalar);
+                        FAIL(soft, CIF_MEMORY_ERROR);
+                    }
                 }
                 scalar->key_orig = scalar->key;
                 HASH_ADD_KEYPTR(hh, temp_packet->map.head, scalar->key, U_BYTES(scalar->key), scalar);
